@@ -62,6 +62,9 @@ pub fn class_members(cls: &str) -> Vec<char> {
         // fixed-layout side (values the bundled Probhat layout can emit)
         "k*" => "কখগঘচছজটডতদনপবমরলসহ".chars().collect(),
         "n*" => "!@#%()-_=+;,?~".chars().collect(),
+        // an ASCII symbol the bundled layout emits as it is and the splitter does not count as punctuation: composed text and
+        // raw key text coincide
+        "s*" => vec!['^'],
         other => other.chars().collect(), // a literal
     }
 }
@@ -366,6 +369,18 @@ impl Replayer {
                         }
                         o
                     }
+                    // one key by its code (e.g. a key without a character), selection byte = the preselected index last shown
+                    "keycode" => {
+                        let c = match ctx.as_mut() { Some(c) => c, None => return true };
+                        let sel = if last.kind == "full" { last.sel.min(255) as u8 } else { 0 };
+                        let code = st["code"].as_u64().unwrap_or(0) as u16;
+                        let o = c.key(code, st["mod"].as_u64().unwrap_or(0) as u8, st["sel"].as_u64().map(|n| n as u8).unwrap_or(sel));
+                        self.rep.events += 1;
+                        if o.kind != "panic" {
+                            last = o.clone();
+                        }
+                        o
+                    }
                     "bs" => {
                         let c = match ctx.as_mut() { Some(c) => c, None => return true };
                         let o = c.backspace(st["ctrl"].as_bool().unwrap_or(false));
@@ -552,8 +567,10 @@ impl Replayer {
                         if on.obs.kind != off.obs.kind || on.obs.cands.len() != off.obs.cands.len() || on.obs.sel != off.obs.sel {
                             bad = Some(format!("typed {:?}: option on gives {} {:?} sel={}, off gives {} {:?} sel={}", raw, on.obs.kind, on.obs.cands, on.obs.sel, off.obs.kind, off.obs.cands, off.obs.sel));
                         } else {
-                            for (a, b) in on.obs.cands.iter().zip(off.obs.cands.iter()) {
-                                let expected = if ch["wordempty"].as_bool().unwrap_or(false) || *b == raw {
+                            for (ci, (a, b)) in on.obs.cands.iter().zip(off.obs.cands.iter()).enumerate() {
+                                // (fixed method: the first candidate is the composed text - curled like any other - even when it
+                                // coincides with the raw key text; the raw-key candidate proper comes last)
+                                let expected = if ch["wordempty"].as_bool().unwrap_or(false) || (*b == raw && (tr || ci > 0)) {
                                     b.clone() // punctuation-only text and the raw typed text stay untouched
                                 } else if b.starts_with(&pt) && b.ends_with(&qt) && b.len() >= pt.len() + qt.len() {
                                     format!("{}{}{}", open(&pt), &b[pt.len()..b.len() - qt.len()], close(&qt))
